@@ -18,7 +18,7 @@ FULL_ONLY = c07.FULL_ONLY + ["(Onset, Red)", "(Def/A, Onset, (Green), (Blue))", 
                              "Onset", "(Duration/3 s, Red, (Blue))", "((Red, Blue), (Blue, Red))", "(Def-expand/A, (Red))",
                              "(Def-expand/A, (Blue))", "(Def/B, Offset, (Green))", "(Inset, Def/A)"]
 INVALID = [x for x in c07.INVALID] + ["Def/Zed", "Def/C", "Def/A/3", "Red/", "Red, , Blue", "(Red))", "Re~d", "Label/a#b",
-                                       "Item-count/abc", "Definition/X", "Event", "Train/Blue"]
+                                       "Item-count/abc", "Definition/X", "Event", "Train/Blue", "Label/#", "(Item-count/#, Red)", "Def/C/#"]
 INJECT = ["unknown_tag", "forbidden_extension", "missing_required_child", "bad_unit", "bad_value", "repeated_tag",
           "repeated_group", "misplaced_tag_group", "misplaced_top_level", "several_top_level", "empty_delimiter",
           "undeclared_def", "wrong_def_value", "altered_def_expand", "duplicated_unique"]
@@ -126,7 +126,7 @@ def run_closed(ctx, specs=None):
     su = Setup(ctx)
     real, rng = su.real, ctx.rng
     if specs is None:
-        n = 260 if ctx.quick() else 3000
+        n = 420 if ctx.quick() else 4000
         specs = list(WITNESS) + [gen_table(rng, su.gen, su.variant) for _ in range(n)]
     reqs = [real.request(s, su.variant) for s in specs]
     texts = [x for rq in reqs for r in rq["rows"] for x in r["cells"]]
